@@ -2,4 +2,4 @@ From Coq Require Extraction ExtrOcamlBasic.
 From Common Require Import Words.
 From Life Require Import LifeSpec LifeModel.
 Extraction Language OCaml.
-Extraction "model.ml" anchor init step finish abs spec_step sinit slive well_bracketed getv model_found spec_found.
+Extraction "model.ml" anchor init step finish abs spec_step sinit slive sbase sstored well_bracketed getv model_found spec_found.
